@@ -212,6 +212,7 @@ def main(argv=None):
                 if len(g['samples']) < 4:
                     g['samples'].extend(r['samples'][:2])
                 g['wall'] = max(g['wall'], r['wall'])
+                g['max_approach'] = max(g.get('max_approach', 0.0), r.get('max_approach', 0.0))
                 if r['exhaustive'] is not None:
                     g['exhaustive'] = r['exhaustive'] if g['exhaustive'] is None else (g['exhaustive'] and r['exhaustive'])
                 if r['error']:
@@ -244,6 +245,8 @@ def main(argv=None):
             'excluded_by_construction': g['excluded'], 'known_hits': g['known_hits'],
             'exhaustive': bool(g['exhaustive']) if g['kind'] == 'enumerate' else False,
             'wall_s': round(g['wall'], 2),
+            # largest (error / tolerance) over the tolerance comparisons that passed: how much head-room the stated tolerances had on what was explored
+            'closest_approach_to_a_tolerance': round(g.get('max_approach', 0.0), 6),
         }
         for s in g['samples'][:2]:
             samples.append({'clause': cname, 'case': _trim(s)})
